@@ -10,6 +10,17 @@ BUDGET = {"quick": 170, "thorough": 1500}
 
 
 def gen_cases(tier, seed):
+    # every capture form x owner kind x decoy, enumerated (one captured variable, one use, one syntactic position)
+    from gens import captureforms
+    n = 0
+    for form in captureforms.ALL:
+        for owner in ("local", "param"):
+            for decoy in (True, False):
+                rng = Rng(derive(seed, PROP, "form", form, owner, decoy))
+                spec = {"form": form, "p": rng.range(1, 9), "d": rng.range(0, 9), "owner": owner, "decoy": decoy}
+                yield {"prop": PROP, "id": "f%d" % n, "batch": "capture_forms", "gen": {"family": "captureforms", "spec": spec, "unordered": False},
+                       "envs": modelcheck.gen_envs(rng, 2)}
+                n += 1
     total = 4000 if tier == "quick" else 48000
     for i in range(total):
         rng = Rng(derive(seed, PROP, "hist", i))
